@@ -41,7 +41,9 @@ def default_cfg(cls, N, rng, cplx, tone=False):
 ROUTES = ['fresh', 'data_assigned', 'data_inplace', 'data_refilled', 'sampling_assigned', 'nfft_assigned', 'scale_assigned',
           # histories through a NON-default representation (sides), staleness and the scale_by_freq toggle; all end in the default layout
           'sides_first', 'sides_then_stale', 'sides_same_after_stale', 'stale_then_scale_toggle', 'datatype_flip', 'sides_call_call',
-          'data_other_length', 'stale_then_reassign_all', 'sides_roundtrip', 'sides_chain', 'stale_sides_call', 'detrend_toggle']
+          'data_other_length', 'stale_then_reassign_all', 'sides_roundtrip', 'sides_chain', 'stale_sides_call', 'detrend_toggle',
+          'deepcopy_equal', 'deepcopy_independent', 'shallow_copy_mutated']
+NO_AXIS_ROUTES = {'shallow_copy_mutated'}       # a shallow copy shares the frequency-axis object with its original (by definition of a shallow copy)
 
 
 def pick_route(rng, p_fresh=0.5):
@@ -124,7 +126,7 @@ def via(make, x, NFFT, sampling, scale_by_freq, route='fresh', prev=None):
         p.data = x
     elif route == 'data_other_length':
         # the object held a record of ANOTHER length before; the NFFT specification (None / 'nextpow2' / an integer) is re-assigned afterwards
-        longer = np.concatenate([other, other[:7] if len(other) >= 7 else other])
+        longer = np.tile(other, 6)[:6 * len(other) - 3] * (1 + 0.01 * np.arange(6 * len(other) - 3) / len(other))      # a much longer record
         p = make(longer, NFFT, sampling, scale_by_freq); _ = p.psd
         p.data = x
         p.NFFT = NFFT
@@ -169,6 +171,29 @@ def via(make, x, NFFT, sampling, scale_by_freq, route='fresh', prev=None):
         p.detrend = 'mean' if v0 != 'mean' else None
         p()
         p.detrend = v0
+    elif route == 'deepcopy_equal':
+        import copy
+        q = make(x, NFFT, sampling, scale_by_freq); _ = q.psd
+        p = copy.deepcopy(q)
+        p.data = x                                  # (re-assigned: the copy recomputes by itself)
+    elif route == 'deepcopy_independent':
+        import copy
+        p = make(x, NFFT, sampling, scale_by_freq); _ = p.psd
+        q = copy.deepcopy(p)
+        q.data = other; q.sampling = sampling * 3
+        if isinstance(NFFT, (int, np.integer)):
+            q.NFFT = NFFT + 5
+        _ = q.psd
+        p.scale_by_freq = scale_by_freq
+        p.data = x
+    elif route == 'shallow_copy_mutated':
+        import copy
+        if scale_by_freq:
+            return make(x, NFFT, sampling, scale_by_freq)      # (a shallow copy shares the axis object: df, hence the scaling, is shared too)
+        p = make(x, NFFT, sampling, scale_by_freq); _ = p.psd
+        q = copy.copy(p)
+        q.NFFT = int(p.NFFT) + 5
+        p.data = x
     elif route == 'sides_call_call':
         # explicit computations while a non-default representation is selected
         p = make(other, NFFT, sampling, scale_by_freq); p()
@@ -181,15 +206,102 @@ def via(make, x, NFFT, sampling, scale_by_freq, route='fresh', prev=None):
     return p
 
 
-def route_consistency(make, x, NFFT, sampling, scale_by_freq, routes=None, rtol=1e-9):
+# class-specific settings: configuration key -> attribute of the object
+CFG_ATTRS = {'Periodogram': {'window': 'window'}, 'pcorrelogram': {'lag': 'lag', 'window': 'window'},
+             'pburg': {'order': 'ar_order'}, 'pyule': {'order': 'ar_order'}, 'pcovar': {'order': 'ar_order'}, 'pmodcovar': {'order': 'ar_order'},
+             'pminvar': {'order': 'ar_order'}, 'parma': {'P': 'ar_order', 'Q': 'ma_order', 'lag': 'lag'}, 'pma': {'Q': 'ma_order', 'M': 'ar_order'},
+             'pmusic': {'IP': 'ar_order', 'NSIG': 'NSIG'}, 'pev': {'IP': 'ar_order', 'NSIG': 'NSIG'},
+             'MultiTapering': {'NW': 'NW', 'k': 'k', 'method': 'method'}}
+# a plain (untracked) attribute and a value the estimator rejects at computation time
+FAILING = {'pmusic': ('NSIG', lambda p: int(p.ar_order)), 'pev': ('NSIG', lambda p: int(p.ar_order)),
+           'MultiTapering': ('NW', lambda p: float(p.N)), 'pburg': ('criteria', lambda p: 'no-such-criterion')}
+
+
+PLAIN_ATTRS = {'NSIG', 'NW', 'k', 'method', 'criteria', 'threshold'}
+
+
+def _alt_value(key, v):
+    if isinstance(v, str):
+        if key == 'window':
+            return 'bartlett' if v != 'bartlett' else 'hann'
+        if key == 'method':
+            return 'unity' if v != 'unity' else 'eigen'
+        return v
+    if isinstance(v, float):
+        return v + 0.5
+    return v - 1 if v >= 2 else v + 1
+
+
+def config_routes(cls, cfg):
+    out = []
+    for key, attr in CFG_ATTRS.get(cls, {}).items():
+        if key in cfg and _alt_value(key, cfg[key]) != cfg[key]:
+            out += ['cfg_assigned:%s' % key, 'cfg_roundtrip:%s' % key]
+    if cls in FAILING:
+        out.append('failed_compute_recovery')
+    return out
+
+
+def via_config(cls, cfg, x, NFFT, sampling, scale_by_freq, route):
+    """routes through the class-specific settings: constructed with ANOTHER value of one setting, evaluated, the wanted value assigned
+    (cfg_assigned); the setting changed, evaluated, changed back (cfg_roundtrip); a computation that FAILS because of a rejected plain
+    attribute, the attribute repaired, next read (failed_compute_recovery)"""
+    x = np.asarray(x)
+    if route == 'failed_compute_recovery':
+        attr, badv = FAILING[cls]
+        other = np.ascontiguousarray(x[::-1]) * 0.75 + (0.5 + (0.25j if np.iscomplexobj(x) else 0)) * max(float(np.max(np.abs(x))), 1e-300)
+        p = _construct(cls, other, cfg, NFFT, sampling, scale_by_freq); _ = p.psd
+        p.data = x
+        v0 = getattr(p, attr)
+        setattr(p, attr, badv(p))
+        try:
+            _ = p.psd
+        except Exception:
+            pass
+        try:
+            str(p)                                   # (a summary that swallows the failure must not mark the estimate as computed either)
+        except Exception:
+            pass
+        setattr(p, attr, v0)
+        p()                                          # (an untracked attribute: applied by an explicit computation)
+        return p
+    kind, key = route.split(':')
+    attr = CFG_ATTRS[cls][key]
+    alt = dict(cfg); alt[key] = _alt_value(key, cfg[key])
+    plain = attr in PLAIN_ATTRS                      # untracked attributes: the documented way to apply them is an explicit computation
+    if kind == 'cfg_assigned':
+        p = _construct(cls, x, alt, NFFT, sampling, scale_by_freq); _ = p.psd
+        setattr(p, attr, cfg[key])
+        if plain:
+            p()
+    else:
+        p = _construct(cls, x, cfg, NFFT, sampling, scale_by_freq); _ = p.psd
+        setattr(p, attr, alt[key])
+        if plain:
+            p()
+        _ = p.psd
+        setattr(p, attr, cfg[key])
+        if plain:
+            p()
+    return p
+
+
+def route_consistency(make, x, NFFT, sampling, scale_by_freq, routes=None, rtol=1e-9, cls=None, cfg=None):
     """the estimate an object holds must not depend on HOW it came to hold its data and settings: every route of `via` against the freshly
     constructed object.  Returns [(route, what)].  (With this, a relation checked on fresh objects holds on every route.)"""
     bad = []
     ref_obj = make(np.asarray(x), NFFT, sampling, scale_by_freq)
     ref = np.array(ref_obj.psd); fref = np.asarray(ref_obj.frequencies(), dtype=float); sc = max(float(np.max(np.abs(ref))), 1e-300)
-    for route in (routes or ROUTES[1:]):
+    allr = list(routes) if routes else (ROUTES[1:] + (config_routes(cls, cfg) if cls is not None else []))
+    for route in allr:
         try:
-            p = via(make, x, NFFT, sampling, scale_by_freq, route)
+            if ':' in route or route == 'failed_compute_recovery':
+                try:
+                    p = via_config(cls, cfg, x, NFFT, sampling, scale_by_freq, route)
+                except Exception:
+                    continue                        # the OTHER value of the setting is outside the estimator's domain for this record
+            else:
+                p = via(make, x, NFFT, sampling, scale_by_freq, route)
             got = p.psd
             if got is None:
                 bad.append((route, 'reading psd returns None')); continue
@@ -202,7 +314,7 @@ def route_consistency(make, x, NFFT, sampling, scale_by_freq, routes=None, rtol=
             bad.append((route, 'raised %s: %s' % (type(e).__name__, str(e)[:80]))); continue
         if got.shape != ref.shape:
             bad.append((route, 'psd has %d values, a freshly constructed object %d' % (len(got), len(ref))))
-        elif len(f) != len(got) or len(f) != len(fref) or np.max(np.abs(f - fref)) > 1e-9 * max(1.0, abs(sampling)):
+        elif route not in NO_AXIS_ROUTES and (len(f) != len(got) or len(f) != len(fref) or np.max(np.abs(f - fref)) > 1e-9 * max(1.0, abs(sampling))):
             bad.append((route, 'frequencies() differs from the axis of a freshly constructed object (%d vs %d entries)' % (len(f), len(fref))))
         elif not np.all(np.isfinite(got)) or np.max(np.abs(got - ref)) > rtol * sc:
             bad.append((route, 'psd differs from a freshly constructed object with the same data and settings (max rel dev %.3g)' % (np.max(np.abs(got - ref)) / sc)))
@@ -223,12 +335,17 @@ def class_route_stream(ctx, classes, prop_key, make_cfg=None, n_per_class=None):
     import vlib
     rng = ctx.rng
     for ci, cls in enumerate(classes):
-        for cplx in (False, True):
+        for cplx in (False, True, False, False) if cls == 'pburg' else (False, True):      # pburg: three real records with an order-selection criterion
             N = int(rng.integers(20, 41))
             x, kind = gen_data(rng, N, cplx, ['noise', 'tone', 'ar'][int(rng.integers(0, 3))])
             if rng.integers(0, 2):
                 x = x + (1.5 + (0.75j if cplx else 0))          # a record with a mean (mean removal must not leak between computations)
             cfg = (make_cfg or default_cfg)(cls, N, rng, cplx)
+            if cls == 'parma' and cplx:
+                cfg['Q'] = cfg['P']; cfg['lag'] = max(cfg['lag'], 2 * cfg['P'] + 2)      # equal orders: an assigned order may coincide with the OTHER order
+            if cls == 'pburg' and not cplx:
+                cfg['criteria'] = str(rng.choice(['AIC', 'MDL', 'FPE', 'AICc', 'KIC', 'AKICc']))   # order selection keeps state tied to the record length
+                cfg['order'] = int(rng.integers(6, 9))
             NFFT = N + 3 + ((ci + int(cplx)) % 2) + (2 * cfg.get('lag', 0) if cls == 'pcorrelogram' else 0) + (2 * cfg.get('order', 0) if cls == 'pminvar' else 0)
             if rng.integers(0, 3) == 0:
                 NFFT = None                         # the default grid (resolved from the data length)
@@ -240,7 +357,7 @@ def class_route_stream(ctx, classes, prop_key, make_cfg=None, n_per_class=None):
                      sample={'estimator': cls, 'routes': len(ROUTES) - 1, 'N': N, 'NFFT': NFFT, 'scale_by_freq': sbf} if ci == 0 else None)
             jc = {k: (v.item() if isinstance(v, (np.integer, np.floating)) else v) for k, v in cfg.items()}
             try:
-                bad = route_consistency(lambda d, n, s_, b: _construct(cls, d, cfg, n, s_, b), x, NFFT, sampling, sbf, rtol=rtol)
+                bad = route_consistency(lambda d, n, s_, b: _construct(cls, d, cfg, n, s_, b), x, NFFT, sampling, sbf, rtol=rtol, cls=cls, cfg=cfg)
             except Exception as e:
                 ctx.count('routes/%s/fresh-raised' % cls); continue
             for route, what in bad:
@@ -258,7 +375,7 @@ def replay_routes(r):
         x = np.real(x)
     cls = r['estimator']; cfg = r['cfg']
     rtol = 1e-3 if (cls == 'MultiTapering' and cfg.get('method') == 'adapt') else 1e-9
-    return not route_consistency(lambda d, n, s_, b: _construct(cls, d, cfg, n, s_, b), x, r['NFFT'], r['sampling'], r['scale_by_freq'], routes=[r['route']], rtol=rtol)
+    return not route_consistency(lambda d, n, s_, b: _construct(cls, d, cfg, n, s_, b), x, r['NFFT'], r['sampling'], r['scale_by_freq'], routes=[r['route']], rtol=rtol, cls=cls, cfg=cfg)
 
 
 def _alt_sides(x, i):
